@@ -237,10 +237,10 @@ Theorem C09_proto_safety_block2 : forall (bodies : Z -> bytes) (sizes : Z -> opt
                    | BoReject | BoPass => False
                    | _ => True
                    end)
-         (blk_cli_recv_run junk {| cr_etag := None; cr_st := None |} l).
+         (blk_cli_recv_run junk {| cr_etag := None; cr_st := None; cr_restart := false |} l).
 Proof.
   intros bodies sizes szx junk Hs l Hl.
-  exact (blk_cli_epochs bodies sizes szx junk Hs l Hl {| cr_etag := None; cr_st := None |} I).
+  exact (blk_cli_epochs bodies sizes szx junk Hs l Hl {| cr_etag := None; cr_st := None; cr_restart := false |} I).
 Qed.
 Print Assumptions C09_proto_safety_block2.
 
@@ -271,7 +271,7 @@ Print Assumptions C09_lossless_complete_block1_renegotiated.
 Theorem C09_lossless_complete_block2 : forall body szx junk size,
   0 <= szx -> 0 < len body -> size = None \/ size = Some (len body) -> forall e,
   blk_b2_loop (Z.to_nat (blk_nblocks body szx)) junk body szx size (Some e)
-    {| cr_etag := None; cr_st := None |} 0
+    {| cr_etag := None; cr_st := None; cr_restart := false |} 0
   = repeat BoContinue (Z.to_nat (blk_nblocks body szx - 1)) ++ [BoDeliver body].
 Proof. exact blk_b2_lossless. Qed.
 Print Assumptions C09_lossless_complete_block2.
@@ -282,7 +282,7 @@ Theorem C09_lossless_example :
   let body := map (fun i => Z.of_nat i mod 251) (seq 0 100) in
   blk_b1_loop 8 (fun _ => 0) 1 body (Some 100) {| sn_szx := 2; sn_last := -1; sn_off := 0 |} None 0 2
     = [BoContinue; BoContinue; BoDeliver body] /\
-  blk_b2_loop 8 (fun _ => 0) body 1 (Some 100) (Some 7) {| cr_etag := None; cr_st := None |} 0
+  blk_b2_loop 8 (fun _ => 0) body 1 (Some 100) (Some 7) {| cr_etag := None; cr_st := None; cr_restart := false |} 0
     = [BoContinue; BoContinue; BoContinue; BoDeliver body].
 Proof. vm_compute. split; reflexivity. Qed.
 Print Assumptions C09_lossless_example.
